@@ -199,6 +199,11 @@ func runSelftest(repo, verif string, def *PropDef, kf *KFFile) SelftestResult {
 			continue
 		}
 		er, ek := meta.ExpectRule, meta.ExpectKey
+		if meta.Property != def.ID {
+			// listed under another property through also_checked_by: that property's own rules have other names;
+			// any new violation counts as detection there
+			er, ek = "", ""
+		}
 		det, fired, err := runVariant(repo, ov, def, kf, base, er, ek)
 		d := map[string]any{"variant": name, "summary": meta.Summary, "expect_rule": er, "fired": fired}
 		if err != nil {
